@@ -450,8 +450,11 @@ func makeBytesArshaler(t reflect.Type, fncs *arshaler) *arshaler {
 				// specifies that non-alphabet characters must be rejected.
 				// Unfortunately, the "base32" and "base64" packages allow
 				// '\r' and '\n' characters by default.
-				i := bytes.IndexAny(val, "\r\n")
-				err := fmt.Errorf("illegal character %s at offset %d", jsonwire.QuoteRune(val[i:]), i)
+				// Excess padding is also ignored by those packages.
+				err := fmt.Errorf("illegal data: encoded length of %d mismatches expected length of %d", len(val), encodedLen(len(b)))
+				if i := bytes.IndexAny(val, "\r\n"); i >= 0 {
+					err = fmt.Errorf("illegal character %s at offset %d", jsonwire.QuoteRune(val[i:]), i)
+				}
 				return newUnmarshalErrorAfter(dec, t, err)
 			}
 
